@@ -14,6 +14,7 @@ def run(ctx):
     maxleaves_cases = 4 if quick else 6
     maxleaves_ps = 3 if quick else 4
     nrandom = 300 if quick else 6000
+    nconc = 400 if quick else 6000
 
     # ---- 1. design spec, exhaustive -------------------------------------------------
     cfg_cases = core.cfg_variant(ctx, "C10_cases.cfg", "C10_cases_run.cfg", {"MaxLeaves": maxleaves_cases})
@@ -58,7 +59,7 @@ def run(ctx):
     # ---- 3. replay on the real code ----------------------------------------------------
     inp = os.path.join(ctx.work, "c10-in.json")
     with open(inp, "w") as f:
-        json.dump({"cases": cases, "scheds": scheds, "random": nrandom}, f)
+        json.dump({"cases": cases, "scheds": scheds, "random": nrandom, "concurrent": nconc}, f)
     out = ctx.subdir("c10-out")
     binp = ctx.go_build_test("types", ["zz_verif_c10_test.go"])
     rc, txt = ctx.run_test(binp, "^TestVerifC10$", {"VERIF_IN": inp, "VERIF_OUT": out})
@@ -87,6 +88,8 @@ def run(ctx):
         distinct.add(json.dumps([r["leaves"], r["proof"], r["item"]], sort_keys=True))
     nontriv_ps = set()
     for r in rows_ps:
+        if r["ev"] == "ConcurrentAdd":
+            nontriv_ps.add(json.dumps([r["delivered"], r["goroutines"]], sort_keys=True))
         if r["ev"] == "AddPart":
             nontriv_ps.add(json.dumps([r["part"], r["post"]["slots"], r["added"]], sort_keys=True))
     accepted = sum(1 for r in rows_cases if r["accepted"])
@@ -109,7 +112,7 @@ def run(ctx):
         "proof_cases_accepted_by_real_code": accepted,
         "partset_graph_states_replayed": graph_states,
         "partset_schedules": len(scheds),
-        "partset_random_runs": nrandom,
+        "partset_random_runs": nrandom, "partset_concurrent_trials": nconc,
         "conformance_drift": [{"what": d["what"], "step": d["row"]} for d in drift[:5]],
         "conformance_drift_count": len(drift),
         "nonvacuity": {"Weak_NoProofIndexBinding refuted by TLC": True,
